@@ -11,7 +11,7 @@ from . import common, hg, obscore
 from .common import log
 from .gamma import Gamma
 
-FAMS = [("ints", "int"), ("str", "int"), ("mixed", "int"), ("numstr", "int"), ("shift", "int"), ("mixed", "int"), ("numstr", "int")]
+FAMS = [("ints", "int"), ("str", "int"), ("mixed", "int"), ("numstr", "int"), ("shift", "intfloat"), ("mixed", "int"), ("numstr", "intfloat")]
 
 
 class BigGamma:
@@ -52,6 +52,24 @@ def observe(tag, j, g, rng, n_orient, explicit=None):
                 S.add_simplex(m, idx=g.edge(100 + k) if k % 2 else g.edge(3 + 4 * k))
             else:
                 S.add_simplex(m)
+    # the complex under test may be a copy / a constructor copy of the one that was built, and the one
+    # that was built may be edited afterwards: the complex under test is still the complex described
+    how = rng.choice(["built", "built", "copy", "constructor", "pickle"])
+    if how != "built":
+        import pickle
+
+        S0 = S
+        with warnings.catch_warnings():
+            warnings.simplefilter("ignore")
+            S = S0.copy() if how == "copy" else (xgi.SimplicialComplex(S0) if how == "constructor" else pickle.loads(pickle.dumps(S0)))
+            victims = list(S0.nodes)[:1]
+            try:
+                if S0.num_edges:
+                    S0.remove_simplex_id(list(S0.edges)[-1])
+                S0.remove_nodes_from(victims)
+                S0.add_simplex([g.node(7), g.node(8)])
+            except Exception:  # noqa: BLE001
+                pass
     st, anom = hg.proj(S, g)
     frozen = rng.random() < 0.4
     if frozen:
